@@ -13,6 +13,18 @@
 (* evaluations recorded on one real interpreter (depths read through the   *)
 (* verif accessor before and after each call, then an empty evaluation),   *)
 (* plus the same texts evaluated together on a twin interpreter.           *)
+(*                                                                         *)
+(* How the two "so ..." clauses of the statement are read: they are the    *)
+(* consequences of the rest state the sentence defines (no leftover        *)
+(* operands, scopes, call frames or loop records).  "Does not grow" is     *)
+(* judged on those four stacks: the top-level instruction buffer that      *)
+(* LoadString appends to (dropped by Clear) and the table of interned      *)
+(* symbols are not residue of an evaluation.  "One at a time = together"   *)
+(* is judged over forms whose meaning at compile time does not depend on   *)
+(* what an earlier form of the same text does when it runs: a text is      *)
+(* compiled as a whole before any of it runs (EntryPoints.tla), so         *)
+(* `(def s struct)` `(s Foo [])` differ with every stack at rest; that is  *)
+(* name resolution at compile time, not something an evaluation left.      *)
 (***************************************************************************)
 EXTENDS Integers, Sequences, Json, IOUtils, TLC
 
